@@ -1,6 +1,7 @@
 import ClusterVerif.Spec.C13
 import Driver.Parse
 import Driver.PinParse
+import Driver.C13Import
 /-! C13 driver: parses one case line, runs the bookkeeping model on the observed block stream,
     evaluates the Spec clauses on what the implementation showed. Core Lean only. -/
 namespace CV.C13
@@ -139,6 +140,18 @@ def arm (c : Cfg) (o : Obs) (m : Out) : String :=
     | .fail => if m.finalized then "-in-finalize" else if m.failed.isEmpty then "-importer" else "-in-add"
   mode ++ "-" ++ showStatus m.status ++ detail ++ (if m.finalized && !m.failed.isEmpty then "-after-dropped-error" else "")
 
+/-- the content part of a case line (import parameters, tree, stream, structure dump) -/
+def contentCase (pre post : List (String × String)) (o : Obs) : Option Imp.ContentCase := do
+  let dag ← getKV post "dag"
+  let files ← getKV post "files"
+  let chunker ← getKV pre "chunker"
+  let tree ← getKV pre "tree"
+  let fmt ← getKV pre "fmt"
+  pure { params := { trickle := (← getKV pre "layout") == "trickle", raw := ← bool01 (← getKV pre "raw"),
+                     wrap := ← bool01 (← getKV pre "wrap"), hidden := ← bool01 (← getKV pre "hidden") },
+         sizeChunk := Imp.sizeChunker chunker, car := fmt == "car", tree := tree,
+         streamIds := o.stream.map (·.id), dag := dag, files := files }
+
 def answer (ws : List String) : String :=
   match splitArrow ws with
   | none => "bad-case no-arrow"
@@ -162,6 +175,12 @@ def answer (ws : List String) : String :=
       else
         let v := compare c o m
         if !v.agree then "diff arm=" ++ a ++ " model=" ++ v.why
-        else "ok arm=" ++ a ++ (if o.stream.isEmpty then " trivial" else "")
+        else
+          -- the delivered DAG and the stream against the importer model (successful adds that lost no block)
+          let cdiff := if o.status == .ok && o.failed.isEmpty then
+              (contentCase (kvOf pre) (kvOf post) o).bind Imp.contentDiff else none
+          match cdiff with
+          | some why => "diff arm=" ++ a ++ " model=importer:" ++ why
+          | none => "ok arm=" ++ a ++ (if o.stream.isEmpty then " trivial" else "")
 
 end CV.C13
